@@ -20,6 +20,8 @@ type IC struct {
 	G    *PkgGraph
 	F    map[string]*FuncInfo
 	SP   *ssa.Package
+	// Aliases maps the historical key of a renamed anchor function to its current key.
+	Aliases map[string]string
 }
 
 var icCache = map[string]*IC{}
@@ -42,6 +44,7 @@ func loadInterp(c *Config, withSSA bool, env ...string) (*IC, error) {
 			return nil, fmt.Errorf("no SSA package for %s", pk.PkgPath)
 		}
 	}
+	resolveRoles(ic)
 	if len(c.Overlay) == 0 {
 		icCache[key] = ic
 	}
